@@ -82,8 +82,8 @@ pub trait MatFam<L: Leaf>: 'static {
     fn cm_shrink(m: Self::CM, which: usize) -> (Box<dyn std::any::Any>, usize, Vec<u32>);
 
     // arithmetic and zero / one padded conversions with an element type that is not Copy (operation `MArith`)
-    fn rm_add(a: Self::RM, b: Self::RM) -> Self::RM;
-    fn cm_add(a: Self::CM, b: Self::CM) -> Self::CM;
+    fn rm_add(a: Self::RM, b: Self::RM, which: u32) -> Self::RM;
+    fn cm_add(a: Self::CM, b: Self::CM, which: u32) -> Self::CM;
     fn rm_neg(a: Self::RM) -> Self::RM;
     fn cm_neg(a: Self::CM) -> Self::CM;
     fn rm_default() -> Self::RM;
@@ -283,8 +283,8 @@ macro_rules! matfam {
                 panic!("harness: no such truncating conversion")
             }
 
-            fn rm_add(a: Self::RM, b: Self::RM) -> Self::RM { a + b }
-            fn cm_add(a: Self::CM, b: Self::CM) -> Self::CM { a + b }
+            fn rm_add(a: Self::RM, b: Self::RM, which: u32) -> Self::RM { match which % 4 { 0 => a + b, 1 => a - b, 2 => a / b, _ => a % b } }
+            fn cm_add(a: Self::CM, b: Self::CM, which: u32) -> Self::CM { match which % 4 { 0 => a + b, 1 => a - b, 2 => a / b, _ => a % b } }
             fn rm_neg(a: Self::RM) -> Self::RM { -a }
             fn cm_neg(a: Self::CM) -> Self::CM { -a }
             fn rm_default() -> Self::RM { <Self::RM as Default>::default() }
@@ -915,7 +915,7 @@ impl<F: MatFam<L>, L: Leaf> MatExec<F, L> {
                 match mode {
                     0 | 1 => {
                         // m + w / -m: every element is handed to the element's own operator exactly once, in place
-                        let what = if mode == 0 { "m + w" } else { "-m" };
+                        let what = if mode == 0 { ["m + w", "m - w", "m / w", "m % w"][((op.b >> 16) % 4) as usize] } else { "-m" };
                         let form = std::mem::replace(&mut self.form, MForm::Gone);
                         let col = matches!(form, MForm::CM(_));
                         let mut other_ids: Vec<u32> = Vec::new();
@@ -941,8 +941,8 @@ impl<F: MatFam<L>, L: Leaf> MatExec<F, L> {
                         }
                         crate::arith::arm(op.f, keep_last);
                         let (r, _) = guard(m(OWN_DOOMED) | if op.f > 0 { m(OWN_MAIN) } else { 0 }, 0, None, move || match (form, other) {
-                            (MForm::RM(mm), Some(MForm::RM(oo))) => MForm::<F, L>::RM(F::rm_add(mm, oo)),
-                            (MForm::CM(mm), Some(MForm::CM(oo))) => MForm::<F, L>::CM(F::cm_add(mm, oo)),
+                            (MForm::RM(mm), Some(MForm::RM(oo))) => MForm::<F, L>::RM(F::rm_add(mm, oo, op.b >> 16)),
+                            (MForm::CM(mm), Some(MForm::CM(oo))) => MForm::<F, L>::CM(F::cm_add(mm, oo, op.b >> 16)),
                             (MForm::RM(mm), _) => MForm::<F, L>::RM(F::rm_neg(mm)),
                             (MForm::CM(mm), _) => MForm::<F, L>::CM(F::cm_neg(mm)),
                             _ => unreachable!(),
